@@ -334,7 +334,7 @@ def enum(ctx):
                     det = 'value ∈ %s; counter ∈ %s' % ([show(d)[:60] for d in vdefs], [show(d)[:60] for d in cdefs])
         L = innermost_loop(f, pushes[0]['block'])
         sty, src = loop_source(f, L) if L else (None, None)
-        every = bool(L) and not cycle_without(f, L[1], L[0], {pushes[0]['block']}) and sty == "std::slice::Iter<'_, grammar::EnumStatement>"
+        every = bool(L) and not cycle_without(f, L[1], L[0], {pushes[0]['block']}) and sty is not None and re.match(r"^(std::iter::Enumerate<)?std::slice::Iter<'_, grammar::EnumStatement>>?$", sty) is not None
         ok4 = ok4 and every
         nm = strip(pe[1][0]) if pe[0] == 'tuple' else None
         ok4 = ok4 and nm is not None and nm[0] == 'field' and nm[2] == '0'
@@ -403,6 +403,17 @@ def enum(ctx):
                         l2 = p2['local']
                     lb = f.defs()[l2][0][0]
                     if L and lb in L[1] and f.dominates(lb, pushes[0]['block']) and f.dominates(pushes[0]['block'], bi) and len(pushes) == 1:
+                        okdi = True
+    if not okdi and pushes:
+        # or: the position of the statement in an enumerate() over the statement list, when every statement pushes exactly one field
+        L_ = innermost_loop(f, pushes[0]['block'])
+        sty_, src_ = loop_source(f, L_) if L_ else (None, None)
+        if sty_ and re.match(r"^std::iter::Enumerate<std::slice::Iter<'_, grammar::EnumStatement>>$", sty_) and len(pushes) == 1 and not cycle_without(f, L_[1], L_[0], {pushes[0]['block']}):
+            for d in ddefs:
+                if d[0] == 'agg' and d[1].endswith('Option::Some'):
+                    v = strip(d[2][0][1])
+                    if v[0] == 'field' and v[2] == '0' and strip(v[1])[0] == 'payload' and strip(v[1])[2] == 'Some' and is_call(strip(strip(v[1])[1]), 'Iterator::next') and \
+                            not any(re.search(r'Iterator::(skip|take|filter|rev|step_by|chain)$', c_[3]) for c_ in calls_in(expand(f, src_))):
                         okdi = True
     ctx.ob(['C08'], 'R-EXPR', 'EB|default-index', okdi, 'the default index is the index of the variant just pushed (len − 1 after the push): %s' % [show(d)[:80] for d in ddefs], where)
     # G17 range check (absent today)
